@@ -271,6 +271,7 @@ impl LangInterpreter for French {
                     ""
                 };
                 if previous_text != "numéro"
+                    && !self.is_decimal_sep(previous_text)
                     && self.apply(previous_text, &mut b).is_err()
                     && self.apply(next_text, &mut b).is_err()
                 {
